@@ -425,7 +425,7 @@ def stream_doc_chains(ctx, res):
     rng = ctx.rng
     dist = res["distribution"]
     jobs = []
-    for _ in range(ctx.n(120, 2500)):
+    for _ in range(ctx.n(80, 2000)):
         chain = [rng.choice([0, 1, 2, 4]) for _ in range(rng.randint(1, 5))]
         chain[rng.randrange(len(chain))] = 2
         t = rng.choice([0, 1, 999, 40000, 59999999, 3599999000, rng.randrange(0, 80000 * 10**6)])
